@@ -696,3 +696,91 @@ Proof.
   intros Hc. apply (check_from_at_shift 0 [] h st st); [reflexivity | exact Hc |].
   split; [reflexivity | lia].
 Qed.
+
+(* ---- AbacoRing's use of the ring: once the read position stands on a packet boundary (after start() = discard to the
+   stride p), every later sequence of writes, whole-packet reads ReadMultipleOf p and further discards to p leaves it
+   on a packet boundary, whatever DEED writes and whenever it does so.  No ring invariant is needed: it is arithmetic
+   on the free-running pointers alone, so it holds for any pointer base. ---- *)
+Definition packet_op (p : Z) (o : op) : Prop :=
+  match o with
+  | Write _ => True
+  | ReadMultipleOf k | DiscardStride k => k = p
+  | _ => False
+  end.
+
+Lemma read_rp_le s size : size <= wp s - rp s ->
+  rp (fst (read s size)) = rp s \/ rp (fst (read s size)) = rp s + size.
+Proof.
+  intro Hle. unfold read.
+  replace (size >? wp s - rp s) with false by lia.
+  destruct (size <=? 0) eqn:E2; cbn [fst rp]; [now left | now right].
+Qed.
+
+Lemma rmo_keeps_alignment s p : 0 < p -> rp s mod p = 0 ->
+  rp (fst (read_multiple_of s p)) mod p = 0.
+Proof.
+  intros Hp Hal. unfold read_multiple_of.
+  destruct ((p <=? 0) || (p >=? cap s)) eqn:E; cbn [fst]; [exact Hal|].
+  assert (Hle : p * (bytes_readable s / p) <= wp s - rp s).
+  { assert (p * (bytes_readable s / p) <= bytes_readable s) by (apply Z.mul_div_le; lia).
+    unfold bytes_readable in *. destruct (wp s - rp s >=? cap s) eqn:E3; lia. }
+  destruct (read s (p * (bytes_readable s / p))) as [s' d] eqn:Er.
+  cbn [fst].
+  pose proof (read_rp_le s _ Hle) as H. rewrite Er in H. cbn [fst] in H.
+  destruct H as [H | H]; rewrite H; [exact Hal|].
+  rewrite Z.mul_comm, Z.mod_add by lia. exact Hal.
+Qed.
+
+Lemma discard_keeps_alignment s p : 0 < p -> rp s mod p = 0 ->
+  rp (fst (discard_stride s p)) mod p = 0.
+Proof.
+  intros Hp Hal. unfold discard_stride.
+  replace (p <=? 0) with false by lia.
+  set (nr := if wp s mod p >? 0 then wp s - wp s mod p else wp s).
+  assert (Hnr : nr mod p = 0).
+  { unfold nr. destruct (wp s mod p >? 0) eqn:E.
+    - rewrite Zminus_mod, Z.mod_mod, Z.sub_diag, Z.mod_0_l by lia. reflexivity.
+    - pose proof (Z.mod_pos_bound (wp s) p Hp). lia. }
+  destruct (nr >? rp s); cbn [fst rp]; assumption.
+Qed.
+
+Lemma write_rp s d : rp (fst (write s d)) = rp s.
+Proof. reflexivity. Qed.
+
+Lemma packet_step_alignment s p o : 0 < p -> packet_op p o -> rp s mod p = 0 ->
+  rp (fst (step s o)) mod p = 0.
+Proof.
+  intros Hp Hop Hal. destruct o; cbn [packet_op] in Hop; try contradiction; cbn [step].
+  - destruct (write s d) as [s' n] eqn:E. cbn [fst]. change s' with (fst (s', n)). rewrite <- E, write_rp. exact Hal.
+  - subst k. now apply rmo_keeps_alignment.
+  - subst k. now apply discard_keeps_alignment.
+Qed.
+
+Theorem packet_alignment_preserved p : 0 < p -> forall ops s,
+  Forall (packet_op p) ops -> rp s mod p = 0 -> rp (fst (run s ops)) mod p = 0.
+Proof.
+  intros Hp ops. induction ops as [|o rest IH]; intros s Hall Hal; cbn [run fst]; [exact Hal|].
+  inversion Hall as [|? ? Ho Hrest]; subst.
+  unfold observe. destruct (step s o) as [s1 r] eqn:Es.
+  destruct (run s1 rest) as [s2 bs] eqn:Er. cbn [fst].
+  change s2 with (fst (s2, bs)). rewrite <- Er. apply IH; [exact Hrest|].
+  change s1 with (fst (s1, r)). rewrite <- Es. now apply packet_step_alignment.
+Qed.
+
+(* start(): whatever stood in the ring, after DiscardStride p the read position is on a packet boundary or did not move *)
+Theorem start_aligns_or_keeps s p : 0 < p ->
+  let s' := fst (discard_stride s p) in rp s' mod p = 0 \/ rp s' = rp s.
+Proof.
+  intros Hp. cbn zeta. unfold discard_stride. replace (p <=? 0) with false by lia.
+  set (nr := if wp s mod p >? 0 then wp s - wp s mod p else wp s).
+  assert (Hnr : nr mod p = 0).
+  { unfold nr. destruct (wp s mod p >? 0) eqn:E.
+    - rewrite Zminus_mod, Z.mod_mod, Z.sub_diag, Z.mod_0_l by lia. reflexivity.
+    - pose proof (Z.mod_pos_bound (wp s) p Hp). lia. }
+  destruct (nr >? rp s); cbn [fst rp]; [left; exact Hnr | right; reflexivity].
+Qed.
+
+Example packet_alignment_nonvacuous :
+  let s0 := fst (run (create 64) [Write (zrange 0 30); DiscardStride 8]) in
+  rp s0 = 24 /\ rp (fst (run s0 [Write (zrange 30 20); ReadMultipleOf 8; Write (zrange 50 9); DiscardStride 8])) = 56.
+Proof. vm_compute. split; reflexivity. Qed.
